@@ -169,12 +169,17 @@ def object_subtree(data):
 
 
 INTERLEAVE = {
-    'none': lambda w: None,
-    'create-other': lambda w: w.do((1, 2), W.p_create()),
-    'destroy-other': lambda w: w.do((1, 2), W.p_destroy('1')),
-    'modify-other': lambda w: w.do((1, 4), W.p_modify_attribute_1x('2', AT.NAME, 'renamed', 0)),
-    'failing': lambda w: w.do((1, 2), W.p_get('999')),
-    'bob-creates': lambda w: w.do((2, 0), W.p_create(), user='bob'),
+    'none': lambda w, u: None,
+    'create-other': lambda w, u: w.do((1, 2), W.p_create()),
+    'destroy-other': lambda w, u: w.do((1, 2), W.p_destroy('1')),
+    'modify-other': lambda w, u: w.do((1, 4), W.p_modify_attribute_1x('2', AT.NAME, 'renamed', 0)),
+    'failing': lambda w, u: w.do((1, 2), W.p_get('999')),
+    'bob-creates': lambda w, u: w.do((2, 0), W.p_create(), user='bob'),
+    # read-only uses of the object itself inside a batch whose last item commits: reading (plainly,
+    # wrapped under key 3, its attributes) must leave what is stored untouched
+    'reads-then-commit': lambda w, u: w.do((1, 2), [
+        W.p_get(u, wrapping_spec=W.wrapping_spec('3')), W.p_get(u), W.p_get_attributes(u),
+        W.p_get_attribute_list(u), W.p_create()], error_option=E.BatchErrorContinuationOption.CONTINUE),
 }
 
 
@@ -183,6 +188,9 @@ def base_store():
     w = W.World()
     w.do((1, 2), W.p_create())                                                # 1
     w.do((1, 4), W.p_register(W.pie_secret(), W.common_attrs(names=['other'])))   # 2
+    w.do((1, 4), W.p_register(W.pie_symmetric(b'\x6b' * 16), [
+        W.attr(AT.CRYPTOGRAPHIC_USAGE_MASK, [CUM.WRAP_KEY, CUM.ENCRYPT])]))       # 3: a wrapping key
+    w.do((1, 4), W.p_activate('3'))
     return w
 
 
@@ -220,7 +228,7 @@ def fidelity_case(label, factory, version, restart, inter, part):
                                "registering %s under KMIP %s: %s: %s" % (label, version, type(e).__name__, msg[:150]), ctx)
             return
         reg_tree = object_subtree(log[-1][0])
-        INTERLEAVE[inter](w)
+        INTERLEAVE[inter](w, uid)
         if restart:
             w.restart(clean=(restart == 'clean'))
             tr.responder = c19.real_responder(w, log)
@@ -469,7 +477,7 @@ def run(tier, seed):
     labels = [l for l, f in objects_menu(tier)]
     if tier == 'quick':
         combos = [((1, 2), None, 'none'), ((2, 0), 'clean', 'none'), ((1, 4), 'kill', 'create-other'),
-                  ((1, 0), None, 'destroy-other')]
+                  ((1, 0), None, 'destroy-other'), ((1, 2), 'clean', 'reads-then-commit')]
         acombos = [((1, 0), False), ((1, 2), True), ((1, 4), False), ((2, 0), True)]
     else:
         combos = [(v, r, i) for v in W.VERSIONS for r in (None, 'clean', 'kill') for i in INTERLEAVE]
